@@ -103,7 +103,7 @@ class C01(Prop):
     thorough_deadline_s = 800
     all_branches = ["o:ok", "o:fail-ros", "o:fail-guard", "d:tool", "d:literal", "d:keyword", "d:compare", "d:math",
                     "latched", "too-long", "b:within", "b:small-pow", "b:exceeds", "forced", "dg:text:ok", "dg:text:fail",
-                    "cdg:returned", "retable"]
+                    "cdg:returned", "retable", "retimeout"]
     assumptions = [
         "CPython's parser, `str.lower/strip`, `json.loads` and `ast.literal_eval` are environment: their outcome on "
         "each input string is computed by CPython and handed to the model",
@@ -430,6 +430,29 @@ class C01(Prop):
                 cases.append({"lines": lines, "note": "odd tool name"})
         spaces.append({"name": f"{len(mito.ODD_TOOLNAMES)} odd tool names (regex-special, empty, long, non-ASCII, "
                                "equal to allow-listed functions) x texts x auto-detection", "cases": cases})
+        # an engine without a usable timeout — timeout_seconds=0 at construction, or the public attribute `timeout` set
+        # to 0 / 0.0 / None afterwards — and texts that SUCCEED on every pathway (the bookkeeping after a success divides
+        # by the timeout): a result every time, through metabolize, digest_glucose and back to a positive timeout
+        cases = []
+        OKS = [("math", "t0"), ("auto", "t0"), ("auto", "t0 < t1"), ("logic", "true"), ("tool", "tool1(t0)"),
+               ("auto", "tool1()"), ("transform", "[1, 2]"), ("auto", "[True]"), ("math", "[t0, (t1,)]"), ("math", "zz")]
+        for silent in (True, False):
+            for how in ("ctor", "zero", "zerof", "none"):
+                lines = [mito.tables_line(facts, mito.TN),
+                         mito.cfg_line(facts, rng.randrange(1, 10 ** 6), silent=silent, ros=(1000, 1), tz=(how == "ctor")),
+                         mito.tool_line("tool1", [], 0, None, "fn")]
+                if how != "ctor":
+                    lines.append(mito.met_line("math", "t0"))
+                    lines.append(f"retimeout {how}")
+                for (pw, src) in OKS:
+                    lines.append(mito.met_line(pw, src))
+                lines.append(mito.dg_line("t0"))
+                lines.append(mito.dg_line("f0(t0, k=t1)"))
+                lines.append("retimeout pos")
+                lines += [mito.met_line("math", "t0"), mito.met_line("auto", "tool1(t0)"), mito.dg_line("t1")]
+                cases.append({"lines": lines, "note": "no usable timeout (" + how + ")"})
+        spaces.append({"name": "timeout 0 at construction / public attribute timeout := 0, 0.0, None on the live engine x "
+                               "successful texts on every pathway x digest_glucose", "cases": cases})
         # every registration route x capability settings: the registry, the capability check and the tool pathway do not
         # depend on HOW the tool came in (register_function / engulf_tool(SimpleTool) / a foreign object carrying its
         # capabilities under the protocol's other attribute name / the constructor's tools=)
